@@ -234,6 +234,10 @@ class Policy:
         """Return a V to replace the call, or None."""
         return None
 
+    def inline_closure(self, closure_path, args, interp, path):
+        """Return False to keep a call of a known closure opaque."""
+        return True
+
     def on_opaque_switch(self, cond, labels, interp, path):
         """Return the subset of labels to follow (default: all)."""
         return labels
@@ -537,6 +541,8 @@ class Interp:
                     v = self.rvalue(path, frame, st["rv"])
                     if st["rv"]["k"] == "aggregate" and st["rv"]["agg"] == "adt":
                         path.events.append(("aggregate", v, st["span"], body["path"]))
+                    elif st["rv"]["k"] == "aggregate" and st["rv"]["agg"] == "closure":
+                        path.events.append(("closure", self.snap_deep(path, v), st["span"], body["path"]))
                     self.write_place(path, frame, st["place"], v)
                 elif st["k"] == "setdiscr":
                     pass
@@ -760,6 +766,19 @@ class Interp:
             n += 1
         return v
 
+    def snap_deep(self, path, v, depth=0):
+        """Snapshot with captured references resolved (so the value outlives its frame)."""
+        v = self._snap(path, v)
+        if depth > 6:
+            return v
+        if isinstance(v, Closure):
+            return Closure(v.path, {k: self.snap_deep(path, x, depth + 1) for k, x in v.caps.items()})
+        if isinstance(v, Tup):
+            return Tup([self.snap_deep(path, x, depth + 1) for x in v.elems], v.kind)
+        if isinstance(v, Variant):
+            return Variant(v.adt, v.variant, {k: self.snap_deep(path, x, depth + 1) for k, x in v.fields.items()})
+        return v
+
     def _finish_call(self, path, frame, t, res):
         if t["target"] is None:
             path.status, path.note = "diverge", mir.callee_path(t) or "fnptr"
@@ -829,7 +848,7 @@ class Interp:
             self._push(path, body, args, t["dest"], t["target"])
             return None
         body = self.fb.bodies.get(fv.path)
-        if body is None or len(path.frames) >= pol.max_depth + 2:
+        if body is None or len(path.frames) >= pol.max_depth + 2 or not pol.inline_closure(fv.path, args, self, path):
             res = App("call:" + fv.path, [self._snap(path, a) for a in args])
             return self._finish_call(path, frame, t, res)
         if t["target"] is None:
